@@ -238,8 +238,19 @@ func GetAttrString(self Object, key string) (res Object, err error) {
 		}
 	}
 
-	// Look in the instance dictionary if it exists
-	if I, ok := self.(IGetDict); ok {
+	if T, ok := self.(*Type); ok && T.Mro != nil {
+		// self is a class: look in its own dictionary and in those of its base
+		// classes, binding what is found to the class (not to an instance)
+		if res = T.Lookup(key); res != nil {
+			if _, isProperty := res.(*Property); !isProperty {
+				if I, ok := res.(I__get__); ok {
+					res, err = I.M__get__(None, T)
+				}
+			}
+			return res, err
+		}
+	} else if I, ok := self.(IGetDict); ok {
+		// Look in the instance dictionary if it exists
 		dict := I.GetDict()
 		res, ok = dict[key]
 		if ok {
